@@ -446,6 +446,11 @@ impl Engine for VcCli {
                 }
             }
         }
+        for class in [0u8, 1, 2, 3] {
+            for cram in [false, true] {
+                v.push(CliCase::Env { classes: vec![class], crams: vec![cram], same_names: false, flag: 3, tamper: false });
+            }
+        }
         for flag in 0..3u8 {
             v.push(CliCase::Env { classes: vec![0], crams: vec![false], same_names: false, flag, tamper: true });
             v.push(CliCase::Env { classes: vec![0, 0], crams: vec![false, true], same_names: false, flag, tamper: true });
@@ -460,7 +465,7 @@ impl Engine for VcCli {
     fn bound(&self, tier: Tier) -> String {
         let q = tier == Tier::Quick;
         format!(
-            "C15: every Markdown document of 1..{d} test cases over {{pass, fail-output, fail-exit, exit 80, exit 80 with [80], exit 81, exit 81 with [81]}} x skip code setting {{default, front-matter defaults 81, inline 81}} x second document {{none, passing, failing}}; every Cram document of 1..{d} over the same plus a final plain `exit 80`. C20: every single Markdown document of 1..{d} test cases over {{pass, fail-output, fail-exit, exit 80, detached, timeout, exit 81}} x 9 prepend/append variants (front-matter, -P/-A, both, failing prepend, a prepended document that skips with a skip code of its own) + inline skip code 81; every run of {n} documents over 7 document shapes (Markdown and Cram mixed) given as files, as a directory, and with -P; 4 error classes. C18: every run of 1..{n} documents over 8 outcome classes (success, validation failure, timeout, skip, parse error, script exit error, shell not executable, timeout of a shell that ignores SIGTERM - observed after that shell has ended) x {{no flag, --work-directory, --keep-temporary-directories}} x format mixes x same/different file names, plus tampering histories (test 1 overwrites TESTDIR / unsets TMPDIR) and {r} rounds of 4 concurrent scrut processes on one TMPDIR (sampling, not what the property is decided on)",
+            "C15: every Markdown document of 1..{d} test cases over {{pass, fail-output, fail-exit, exit 80, exit 80 with [80], exit 81, exit 81 with [81]}} x skip code setting {{default, front-matter defaults 81, inline 81}} x second document {{none, passing, failing}}; every Cram document of 1..{d} over the same plus a final plain `exit 80`. C20: every single Markdown document of 1..{d} test cases over {{pass, fail-output, fail-exit, exit 80, detached, timeout, exit 81}} x 9 prepend/append variants (front-matter, -P/-A, both, failing prepend, a prepended document that skips with a skip code of its own) + inline skip code 81; every run of {n} documents over 7 document shapes (Markdown and Cram mixed) given as files, as a directory, and with -P; 4 error classes. C18: every run of 1..{n} documents over 8 outcome classes (success, validation failure, timeout, skip, parse error, script exit error, shell not executable, timeout of a shell that ignores SIGTERM - observed after that shell has ended) x {{no flag, --work-directory, --keep-temporary-directories}} x format mixes (and --work-directory with a path that does not exist for 4 classes x 2 formats) x same/different file names, plus tampering histories (test 1 overwrites TESTDIR / unsets TMPDIR) and {r} rounds of 4 concurrent scrut processes on one TMPDIR (sampling, not what the property is decided on)",
             d = if q { 2 } else { 3 },
             n = if q { 2 } else { 3 },
             r = if q { 3 } else { 20 }
@@ -833,6 +838,11 @@ fn check_env(case: &CliCase, classes: &[u8], crams: &[bool], same_names: bool, f
             args.push(workdir.to_string_lossy().to_string());
         }
         2 => args.push("--keep-temporary-directories".into()),
+        3 => {
+            // a path that does not exist: whatever scrut does with it, nothing it creates may remain
+            args.push("--work-directory".into());
+            args.push(sb.scratch.path().join("missing w\u{f6}rk dir/nested/work").to_string_lossy().to_string());
+        }
         _ => {}
     }
     if classes.contains(&6) {
@@ -849,9 +859,21 @@ fn check_env(case: &CliCase, classes: &[u8], crams: &[bool], same_names: bool, f
             std::thread::sleep(Duration::from_millis(2600));
         }
     });
-    let describe = || format!("classes {classes:?} (0 ok,1 validation failure,2 timeout,3 skip,4 parse error,5 script exit,6 shell not executable,7 timeout of a shell that ignores SIGTERM) cram {crams:?} same_names={same_names} flag={flag} (1 --work-directory, 2 --keep-temporary-directories) tamper={tamper}");
+    let describe = || format!("classes {classes:?} (0 ok,1 validation failure,2 timeout,3 skip,4 parse error,5 script exit,6 shell not executable,7 timeout of a shell that ignores SIGTERM) cram {crams:?} same_names={same_names} flag={flag} (1 --work-directory, 2 --keep-temporary-directories, 3 --work-directory with a path that does not exist) tamper={tamper}");
     if run.timed_out {
         res.findings.push(Finding::new("C18", "run-terminates", describe(), "no exit within 90 s".to_string()));
+        return res;
+    }
+    if flag == 3 {
+        let root = sb.scratch.path().join("missing w\u{f6}rk dir");
+        res.outcome.push(("C18", hash64(&(classes, flag, root.exists(), run.status))));
+        if root.exists() {
+            res.findings.push(Finding::new("C18", "no-directory-remains", format!("{}: --work-directory names a path that does not exist; nothing of it exists after exit (status {:?})", describe(), run.status), "the directory and its parents were created and left behind".to_string()));
+        }
+        let left = sb.tmp_entries();
+        if !left.is_empty() {
+            res.findings.push(Finding::new("C18", "no-directory-remains", format!("{}: TMPDIR empty after exit (status {:?})", describe(), run.status), format!("{left:?}")));
+        }
         return res;
     }
     // ---- clean-up
